@@ -1043,14 +1043,15 @@ theorem applyPatch_cases_rej (file : List Line) (p0 : Patch) (o : ApplyOpts) (tt
       · next rh ms tty' hdec =>
         right
         split at hres
-        · refine ⟨{ p with hunks := reverseHunk h0 :: rest.map reverseHunk }, { msgs := ms, tty := tty' },
+        · have hrm : (reversePatch p).hunks = p.hunks.map reverseHunk := rfl
+          have hrh : (reversePatch p).hunks = reverseHunk h0 :: rest.map reverseHunk := by
+            rw [hrm, hh, List.map_cons]
+          refine ⟨reversePatch p, { msgs := ms, tty := tty' },
             ⟨rfl, rfl, rfl, rfl, rfl⟩, rfl, ?_, ?_⟩
-          · show reverseHunk h0 :: rest.map reverseHunk = _ ∨ _
-            rw [← List.map_cons, ← hh]
-            rcases hph with h | h
-            · exact Or.inr (Or.inl (by rw [h]))
-            · exact Or.inr (Or.inr (by rw [h]))
-          · rw [runLoop_cons (h := reverseHunk h0) (rest := rest.map reverseHunk) rfl rfl rfl]
+          · rcases hph with h | h
+            · exact Or.inr (Or.inl (by rw [hrm, h]))
+            · exact Or.inr (Or.inr (by rw [hrm, h]))
+          · rw [runLoop_cons (h := reverseHunk h0) (rest := rest.map reverseHunk) hrh rfl rfl]
             exact hres.symm
         · refine ⟨p, { skip := true, msgs := ms, tty := tty' }, ⟨rfl, rfl, rfl, rfl, rfl⟩, rfl, hph', ?_⟩
           rw [runLoop_cons hh rfl rfl]
